@@ -88,7 +88,7 @@ SCRIPTS22 = [[], [0, 1], [2], [1], [0, 3, 1]]
 SCRIPTS33 = [[], [0, 1], [0, 3, 1], [1, 2, 0]]
 
 
-def jobs_for(chk, release_only_small=False):
+def jobs_for(chk):
     """Returns (exhaustive_jobs, sampled_jobs); a job = (label, cfg tuple, mode line suffix pieces)."""
     ex, sa = [], []
     for lay in SMALL_LAYOUTS:
@@ -106,9 +106,9 @@ def jobs_for(chk, release_only_small=False):
     if chk.thorough:
         for lay in L33_EXH:
             for fast in (0, 1):
-                for fresh in (0, 3):
+                for fresh in ((0, 3) if len(lay) < 4 else (0,)):
                     for scr in SCRIPTS33[:3]:
-                        ex.append(("3+3", (fast, fresh, 0, scr, lay), 32 if len(lay) >= 4 else 16))
+                        ex.append(("3+3", (fast, fresh, 0, scr, lay), 64 if len(lay) >= 4 else 16))
     nsample = 6000 if chk.thorough else 1200
     for lay in L33:
         for fast in (0, 1):
@@ -333,9 +333,11 @@ def main():
     tmo = 3000 if chk.thorough else 900
     jobs = []
     meta = []
+    case = None
     if chk.replay:
         rp = json.load(open(chk.replay))
-        case = rp["replay"]["case"]
+        case = rp.get("replay", {}).get("case")   # replays without a schedule (build / proof problems): run the whole check again
+    if case:
         for rel in (True, False):
             # the schedule itself, then 3000 seeded random schedules of the same configuration
             i = 5 + case[4]
@@ -351,28 +353,35 @@ def main():
         relb, dbgb = bin_path("c20", True), bin_path("c20", False)
         batch = []
 
+        batch_label = [None]
+
         def flush(label, prof):
             nonlocal batch
             if batch:
                 jobs.append([relb if prof == "release" else dbgb, model, batch, tmo])
-                meta.append((label, prof))
+                meta.append((batch_label[0] or label, prof))
                 batch = []
+            batch_label[0] = None
         for prof in ("release", "debug"):
             for (label, cfg, parts) in exj:
                 if prof == "debug" and (label != "small" or (cfg[2] == 1 and not chk.thorough)):
                     continue
                 base = cfg_ints(*cfg)
                 if parts == 1:
+                    if batch and batch_label[0] != label:
+                        flush(label, prof)
+                    batch_label[0] = label
                     batch.append([1] + base + [0, 10 ** 9, 0, 1, 0])
                     if len(batch) >= 24:
                         flush(label, prof)
                 else:
                     flush(label, prof)
                     for j in range(parts):
-                        jobs.append([relb, model, [[1] + base + [0, 10 ** 9, 5, parts, j]], tmo])
+                        jobs.append([relb, model, [[1] + base + [0, 10 ** 9, 8, parts, j]], tmo])
                         meta.append((label, prof))
             flush("small", prof)
         for (label, cfg, n, seed) in saj:
+            batch_label[0] = label
             batch.append([2] + cfg_ints(*cfg) + [0, n, seed])
             if len(batch) >= 2:
                 flush(label, "release")
@@ -441,7 +450,7 @@ def main():
     # kernel cross-check of the extraction on a sample of traces
     kern = kern[:40]
     kok = None
-    if kern and not chk.replay:
+    if kern and not case:
         k1 = kernel_eval("run", [k[0] for k in kern], "k_C20_run", imports="Common.Base C20.Runner")
         k2 = kernel_eval("spec", [k[0] for k in kern], "k_C20_spec", imports="Common.Base C20.Runner")
         kok = k1 is not None and k2 is not None and all(k1[i] == kern[i][1] and k2[i] == kern[i][2] for i in range(len(kern)))
